@@ -80,62 +80,177 @@ def show_set(s):
     return "{%s}" % ", ".join("U+%04X..U+%04X" % (a, b) if a != b else "U+%04X" % a for a, b in s)
 
 
+def pred_true_set(ctx, fn, cs, depth=0):
+    """set of characters (subset of cs) for which the crate-local predicate fn(c: char) -> bool
+    returns true, by abstract interpretation of its body; None if undecided"""
+    if depth > 3:
+        return None
+    se = ctx.flat.run(fn)
+    if se is None or se.body.arg_count != 1:
+        return None
+    body = se.body
+    c_term = ("param", 1)
+    true_set = []
+    failed = []
+
+    def value_split(v, cur):
+        """(true subset, false subset) of cur for a boolean value term v"""
+        v = strip(v)
+        neg = False
+        while v[0] == "unop" and v[1] == "Not":
+            neg = not neg
+            v = v[2]
+        if v[0] == "int":
+            t, f = (cur, []) if v[1] else ([], cur)
+        elif util.is_call(v) and v[1] in PRED and strip(v[2][0]) == c_term:
+            t, f = inter(cur, PRED[v[1]]), minus(cur, PRED[v[1]])
+        elif util.is_call(v) and v[1] in ctx.fb.bodies and strip(v[2][0]) == c_term:
+            t = pred_true_set(ctx, v[1], cur, depth + 1)
+            if t is None:
+                return None
+            f = minus(cur, t)
+        else:
+            return None
+        return (f, t) if neg else (t, f)
+
+    def explore(bb, cur, seen, ret_override=None):
+        if not cur or bb in seen:
+            return
+        info = se.term_info.get(bb, {})
+        k = info.get("k")
+        if k == "switch":
+            sp = value_split(info["discr"], cur)
+            tg = info["targets"]
+            if sp is None or len(tg) != 1 or tg[0][0] != 0:
+                failed.append(bb)
+                return
+            explore(tg[0][1], sp[1], seen | {bb})
+            explore(info["otherwise"], sp[0], seen | {bb})
+            return
+        if k == "return":
+            # value of _0 along this path: evaluate through the phi of the return block
+            v = se.ret_by_block.get(bb)
+            failed.append(("ret", bb)) if v is None else None
+            return
+        for s_ in body.succs(bb):
+            explore(s_, cur, seen | {bb})
+
+    # path-sensitive evaluation of the returned value: walk paths and evaluate _0 at the return
+    rets = list(se.ret_by_block.items())
+    if len(rets) != 1:
+        return None
+    rbb, rv = rets[0]
+    if rv[0] != "phi":
+        sp = value_split(rv, cs)
+        return None if sp is None else norm_set(sp[0])
+    ins = se.phi_inputs.get((rv[2], rv[3]), {})
+    # each predecessor of the join carries one value; the characters reaching it are found by exploring
+    reach = {}
+
+    def explore2(bb, cur, seen):
+        if not cur or bb in seen:
+            return
+        if bb in ins and rv[2] in body.succs(bb):
+            reach.setdefault(bb, []).extend(cur)
+            return
+        info = se.term_info.get(bb, {})
+        if info.get("k") == "switch":
+            sp = value_split(info["discr"], cur)
+            tg = info["targets"]
+            if sp is None or len(tg) != 1 or tg[0][0] != 0:
+                failed.append(bb)
+                return
+            explore2(tg[0][1], sp[1], seen | {bb})
+            explore2(info["otherwise"], sp[0], seen | {bb})
+            return
+        for s_ in body.succs(bb):
+            explore2(s_, cur, seen | {bb})
+
+    explore2(0, cs, frozenset())
+    if failed:
+        return None
+    out = []
+    for pred, cur in reach.items():
+        sp = value_split(ins[pred], norm_set(cur))
+        if sp is None:
+            return None
+        out.extend(sp[0])
+    return norm_set(out)
+
+
+def validating_function(ctx):
+    """the unique non-derived function that constructs NormalizedString (role, not name)"""
+    sites = util.aggregates(ctx.fb, NS)
+    fns = sorted({b.path for b, _, _, _ in sites})
+    return fns[0] if len(fns) == 1 else None
+
+
 def check(ctx, rep):
     fb = ctx.fb
-    se = ctx.wrap.run(INNER)
-    if se is None:
-        rep.violation("length-gate", INNER, "anchor", "not found")
+    import ranges
+
+    INNER_FN = validating_function(ctx)
+    if INNER_FN is None:
+        rep.violation("length-gate", NS, "anchor", "NormalizedString is not constructed by exactly one function")
         return
+    se = ctx.wrap.run(INNER_FN)
     body = se.body
-    # ------------------------------------------------------------ length gate
-    too_long = [bi for bi, si, s in util.blocks_constructing(body, "error::NormalizedStringError", "StringTooLong")]
-    gate_len = gate_empty = None
-    for bb, d, f_t, t_t in util.bool_switches(se):
-        x = util.numnorm(d)
-        if x[0] == "binop" and x[1] in ("Gt", "Ge") and x[2] == ("len", ("param", 1)) and x[3][0] == "int":
-            lim = x[3][1] if x[1] == "Gt" else x[3][1] - 1
-            gate_len = (bb, lim, t_t, f_t)
-        if util.is_call(x, "core::str::<impl str>::is_empty") and x[2][0] == ("param", 1):
-            gate_empty = (bb, t_t, f_t)
     loops = util.for_loops(ctx, se)
-    if gate_len is None or gate_empty is None or len(loops) != 1 or not too_long:
-        rep.violation("length-gate", INNER, "shape", "length tests (`s.len() > 16`, `s.is_empty()`), the error or the character loop not found", body.loc())
+    if len(loops) != 1:
+        rep.violation("length-gate", INNER_FN, "shape", "expected one loop over the characters, found %d" % len(loops), body.loc())
         return
     lp = loops[0]
+    world = ranges.World(ctx)
+    pr = world.prover(INNER_FN)
+    # ------------------------------------------------------------ length gate (by dominating facts)
     arr_len = None
     for f in fb.adt_fields(NS):
         t = fb.ty(f["ty"])
         if t.k == "array":
             arr_len = t.len
-    rep.check(gate_len[1] == MAXLEN and arr_len == MAXLEN, "length-gate", INNER, "constant", "limit %d bytes = array length" % gate_len[1], "byte-length limit is %s, array length %s, documented 16" % (gate_len[1], arr_len), body.loc(gate_len[0]))
-    # both failing edges lead only to StringTooLong; the loop is only reachable through both passing edges
-    e_len_bad = (gate_len[0], gate_len[2])
-    e_len_ok = (gate_len[0], gate_len[3])
-    e_emp_bad = (gate_empty[0], gate_empty[1])
-    e_emp_ok = (gate_empty[0], gate_empty[2])
-    dom = cfg.must_pass_edge(body, e_len_ok, lp["next_bb"]) and cfg.must_pass_edge(body, e_emp_ok, lp["next_bb"])
-    rep.check(dom, "length-gate", INNER, "dominates", "both length tests pass on every path into the character loop", "the character loop is reachable without passing the byte-length / emptiness tests", body.loc())
-    r1 = cfg.reachable(body, start=e_len_bad[1])
-    r2 = cfg.reachable(body, start=e_emp_bad[1])
-    only_err = all(lp["next_bb"] not in r for r in (r1, r2)) and all(any(t in r for t in too_long) for r in (r1, r2))
-    ok_blocks = [bi for bi, _, _ in util.blocks_constructing(body, "std::result::Result", "Ok")]
-    only_err = only_err and all(o not in r1 and o not in r2 for o in ok_blocks)
-    rep.check(only_err, "length-gate", INNER, "too-long-or-empty", "over-long and empty input => Err(StringTooLong)", "over-long or empty input does not lead to Err(StringTooLong) only", body.loc())
+    lr = pr.rng(("len", ("param", 1)), lp["next_bb"])
+    rep.check(arr_len == MAXLEN, "length-gate", INNER_FN, "constant", "array length = %s" % arr_len, "text array length is %s, documented 16" % arr_len)
+    rep.check(lr == (1, MAXLEN), "length-gate", INNER_FN, "dominates", "on every path into the character loop the byte length is in [%s, %s]" % lr, "the character loop is reachable with a byte length in [%s, %s] (must be exactly 1..=16 bytes)" % lr, body.loc())
+    # outcomes reachable without entering the loop: only Err(StringTooLong)
+    pre = cfg.reachable(body, cut_blocks=[lp["next_bb"]])
+    bad = []
+    for bi in pre:
+        for s in body.blocks[bi]["stmts"]:
+            if s["k"] == "assign" and s["rv"]["k"] == "aggregate" and s["rv"].get("ak") == "adt":
+                pth, vn = s["rv"]["path"], s["rv"]["vname"]
+                if pth == "std::result::Result" and vn == "Ok":
+                    bad.append("Ok")
+                if pth == "error::NormalizedStringError" and vn != "StringTooLong":
+                    bad.append(vn)
+                if pth == NS:
+                    bad.append("NormalizedString")
+    has_tl = any(s["k"] == "assign" and s["rv"]["k"] == "aggregate" and s["rv"].get("vname") == "StringTooLong" for bi in pre for s in body.blocks[bi]["stmts"])
+    rep.check(has_tl and not bad, "length-gate", INNER_FN, "too-long-or-empty", "over-long and empty input => Err(StringTooLong), nothing else before the character loop", "before the character loop the function can produce %s / no StringTooLong" % bad, body.loc())
     # ------------------------------------------------------------ traversal
     init = lp["init_call"]
-    trav = False
+    item = strip(lp["elem"])
+    mode = None
     if init is not None:
         x = strip(init[2][0])
-        trav = util.is_call(x, "std::iter::Iterator::enumerate") and util.is_call(x[2][0], "core::str::<impl str>::chars") and strip(x[2][0][2][0]) == ("param", 1)
-    rep.check(trav, "first-offender", INNER, "chars-in-order", "for (i, c) in s.chars().enumerate(): in order, early return on the first offender", "characters are not traversed by s.chars().enumerate() in order", body.loc(lp["next_bb"]))
-    item = strip(lp["elem"])
-    c_term = ("field", item, 1)
-    i_term = ("field", item, 0)
+        if util.is_call(x, "std::iter::Iterator::enumerate") and util.is_call(x[2][0], "core::str::<impl str>::chars") and strip(x[2][0][2][0]) == ("param", 1):
+            mode = "enumerate"
+            c_term = ("field", item, 1)
+            i_term = ("field", item, 0)
+        elif util.is_call(x, "std::iter::Iterator::zip"):
+            a, b = strip(x[2][0]), strip(x[2][1])
+            if util.is_call(a, "core::slice::<impl [T]>::iter_mut") and util.is_call(b, "core::str::<impl str>::chars") and strip(b[2][0]) == ("param", 1):
+                mode = "zip"
+                c_term = ("field", item, 1)
+                slot_term = ("field", item, 0)
+    rep.check(mode is not None, "first-offender", INNER_FN, "chars-in-order", "characters are visited by s.chars() in order, position k of the text goes to position k of the array (%s), early return on the first offender" % mode, "characters are not traversed by s.chars().enumerate() / array.iter_mut().zip(s.chars()) in order", body.loc(lp["next_bb"]))
+    if mode is None:
+        return
     # ------------------------------------------------------------ char set by abstract interpretation
-    # explore the acyclic loop-body region from the Some-arm to the back edge / to returns
     store_blocks = {}
     for (bi, si), (loc, v) in se.assigns.items():
-        if loc[0] == "index" and loc[1][0] == "local":
+        if mode == "enumerate" and loc[0] == "index" and loc[1][0] == "local":
+            store_blocks[bi] = (loc, v)
+        if mode == "zip" and loc[0] == "deref" and strip(loc[1]) == slot_term:
             store_blocks[bi] = (loc, v)
     err_blocks = {bi: se.assigns[(bi, si)][1] for bi, si, s in util.blocks_constructing(body, "error::NormalizedStringError", "CharacterNotAllowed")}
     accept, reject, undec = [], [], []
@@ -156,16 +271,20 @@ def check(ctx, rep):
             return
         info = se.term_info.get(bb, {})
         k = info.get("k")
-        t = body.blocks[bb]["term"]
         if k == "switch":
             d = strip(info["discr"])
             neg = False
             while d[0] == "unop" and d[1] == "Not":
                 neg = not neg
                 d = d[2]
+            ts = fs = None
             if util.is_call(d) and d[1] in PRED and d[2][0] == c_term:
                 ts = inter(cs, PRED[d[1]])
                 fs = minus(cs, PRED[d[1]])
+            elif util.is_call(d) and d[1] in fb.bodies and len(d[2]) == 1 and strip(d[2][0]) == c_term:
+                ts = pred_true_set(ctx, d[1], cs)
+                fs = minus(cs, ts) if ts is not None else None
+            if ts is not None:
                 if neg:
                     ts, fs = fs, ts
                 tg = info["targets"]
@@ -185,45 +304,45 @@ def check(ctx, rep):
     accept = norm_set(accept)
     reject = norm_set(reject)
     if undec:
-        rep.undecided("char-set", INNER, "accepted-set", "cannot decide the accepted character set: %s for %s" % (undec[0][0], show_set(undec[0][1])), body.loc())
+        rep.undecided("char-set", INNER_FN, "accepted-set", "cannot decide the accepted character set: %s for %s" % (undec[0][0], show_set(undec[0][1])), body.loc())
     else:
         extra = minus(accept, ACCEPT)
         missing = minus(ACCEPT, accept)
-        rep.check(accept == ACCEPT, "char-set", INNER, "accepted-set", "accepted characters = %s" % show_set(accept), "accepted character set is %s; wrongly accepted %s, wrongly refused %s" % (show_set(accept), show_set(extra), show_set(missing)), body.loc())
-        rep.check(norm_set(accept + reject) == ALL, "char-set", INNER, "total", "every character is either stored or reported", "some characters reach neither the store nor the error", body.loc())
-    # the error carries the loop character
+        rep.check(accept == ACCEPT, "char-set", INNER_FN, "accepted-set", "accepted characters = %s" % show_set(accept), "accepted character set is %s; wrongly accepted %s, wrongly refused %s" % (show_set(accept), show_set(extra), show_set(missing)), body.loc())
+        rep.check(norm_set(accept + reject) == ALL, "char-set", INNER_FN, "total", "every character is either stored or reported", "some characters reach neither the store nor the error", body.loc())
     good = bool(err_blocks) and all(strip(v[4][0]) == c_term for v in err_blocks.values())
-    rep.check(good, "first-offender", INNER, "reported-char", "Err(CharacterNotAllowed(c)) carries the offending character", "the reported character is not the offending loop character", body.loc())
+    rep.check(good, "first-offender", INNER_FN, "reported-char", "Err(CharacterNotAllowed(c)) carries the offending character", "the reported character is not the offending loop character", body.loc())
     # ------------------------------------------------------------ normal form
     good = False
     desc = "?"
     if len(store_blocks) == 1:
         loc, v = next(iter(store_blocks.values()))
-        idx_ok = strip(loc[2]) == i_term
+        idx_ok = True if mode == "zip" else strip(loc[2]) == i_term
         v = strip(v)
-        val_ok = v[0] == "cast" and v[1] == "IntToInt" and v[3] == "u8" and util.is_call(v[2], "std::char::methods::<impl char>::to_ascii_uppercase") and v[2][2][0] == c_term
-        good = idx_ok and val_ok
-        desc = "array[%s] = %s" % (show(strip(loc[2]), maxdepth=2), show(v, maxdepth=3))
-    rep.check(good, "normal-form", INNER, "stored-byte", "array[i] = to_ascii_uppercase(c) as u8", "stored byte is not to_ascii_uppercase(c) as u8 at the character's index: " + desc, body.loc())
+        # to_ascii_uppercase(c) as u8   or   (c as u8).to_ascii_uppercase()  (equal on the ASCII accept set)
+        f1 = v[0] == "cast" and v[1] == "IntToInt" and v[3] == "u8" and util.is_call(v[2], "std::char::methods::<impl char>::to_ascii_uppercase") and v[2][2][0] == c_term
+        f2 = util.is_call(v, "core::num::<impl u8>::to_ascii_uppercase") and strip(v[2][0]) == ("cast", "IntToInt", c_term, "u8") and accept == ACCEPT
+        good = idx_ok and (f1 or f2)
+        desc = show(v, maxdepth=3)
+    rep.check(good, "normal-form", INNER_FN, "stored-byte", "array[position] = ASCII upper case of c", "stored byte is not the ASCII upper case of the character at its position: " + desc, body.loc())
     oks = [(bi, si) for bi, si, s in util.blocks_constructing(body, NS)]
     good = False
     if len(oks) == 1:
         loc, v = se.assigns[oks[0]]
-        fields = [f["name"] for f in fb.adt_fields(NS)]
         tys = [fb.ty(f["ty"]).k for f in fb.adt_fields(NS)]
         arr_v = [x for x, t in zip(v[4], tys) if t == "array"]
         len_v = [x for x, t in zip(v[4], tys) if t == "int"]
         ln = util.numnorm(len_v[0]) if len_v else None
         len_ok = ln is not None and ln[0] == "cast" and ln[3] == "u8" and ln[2] in (("len", ("param", 1)),)
         if ln is not None and not len_ok:
-            # chars().count() is equal on the all-ASCII accept path
             x = strip(len_v[0])
             len_ok = x[0] == "cast" and util.is_call(x[2], "std::iter::Iterator::count") and util.is_call(x[2][2][0], "core::str::<impl str>::chars")
-        arr_ok = bool(arr_v) and arr_v[0][0] in ("phi", "upd", "repeat")
+        arr_ok = bool(arr_v) and arr_v[0][0] in ("phi", "upd", "repeat", "after")
         good = len_ok and arr_ok
-    rep.check(good, "normal-form", INNER, "length-field", "length = byte length (<= 16, fits u8), s = the filled array", "the length stored is not the byte length of the input", body.loc())
+    rep.check(good, "normal-form", INNER_FN, "length-field", "length = byte length (<= 16, fits u8), s = the filled array", "the length stored is not the byte length of the input", body.loc())
     zero_init = any(v[0] == "repeat" and v[1][:2] == ("int", 0) and v[2] == MAXLEN for (bi, si), (loc, v) in se.assigns.items())
-    rep.check(zero_init, "normal-form", INNER, "zero-padded", "the array starts as [0; 16] (zero padding)", "the text array is not zero-initialised")
+    rep.check(zero_init, "normal-form", INNER_FN, "zero-padded", "the array starts as [0; 16] (zero padding)", "the text array is not zero-initialised")
+    INNER = INNER_FN
     # ------------------------------------------------------------ constructors delegate
     new_inst = [p for p in fb.bodies if p.startswith(NS + "::new") and "inner" not in p]
     nse = ctx.flat.run(NS + "::new")
@@ -260,7 +379,7 @@ def check(ctx, rep):
     rep.check(tys == ["array", "int"], "derives", NS, "field-order", "fields are (text array, length) in that order: derived Ord compares the text first", "field order is %s: derived ordering would compare the length before the text" % tys)
     # ------------------------------------------------------------ text view
     AR = "<normalized_string::NormalizedString as std::convert::AsRef<str>>::as_ref"
-    ase = ctx.flat.run(AR)
+    ase = ctx.pure.run(AR)
     good = False
     if ase is not None:
         r = strip(ase.ret)
@@ -268,9 +387,10 @@ def check(ctx, rep):
             sl = strip(r[2][0][2][0])
             if util.is_call(sl) and sl[1].endswith("::index") and sl[2][1][0] == "agg" and sl[2][1][2] == "std::ops::RangeTo":
                 base = sl[2][0]
-                end = util.numnorm(sl[2][1][4][0])
-                if end[0] == "cast" and end[3] == "usize":
-                    end = end[2]
+                from rules import arith as _ar
+
+                end = _ar.norm(sl[2][1][4][0])
+                end = ("field", ("param", 1), end[2]) if end[0] == "fld" and end[1] == ("param", 1) else end
                 fs = fb.adt_fields(NS)
                 ai = [i for i, f in enumerate(fs) if fb.ty(f["ty"]).k == "array"][0]
                 li = [i for i, f in enumerate(fs) if fb.ty(f["ty"]).k == "int"][0]
